@@ -969,29 +969,37 @@ func main() {
 	}
 	// 2. generated
 	for i := 0; i < n; i++ {
-		switch {
-		case i%10 < 4: // canonical trees without known-defect literal features
+		switch k := i % 24; {
+		case k < 8: // canonical trees without known-defect literal features
 			c := Case{Kind: "ast"}
 			roundtrip(&c, g.canon(feat{false, false}, g.r.Range(1, 4), 0))
 			emit(c)
-		case i%10 == 4: // canonical trees with integral floats / sub-microsecond durations allowed
+		case k < 10: // canonical trees with integral floats / sub-microsecond durations allowed
 			c := Case{Kind: "ast"}
 			roundtrip(&c, g.canon(feat{true, true}, g.r.Range(1, 3), 0))
 			emit(c)
-		case i%10 == 5: // arbitrary trees (not the image of any parser: correspondence only, the oracle is not judged)
+		case k < 12: // arbitrary trees (not the image of any parser: correspondence only, the oracle is not judged)
 			c := Case{Kind: "loose"}
 			roundtrip(&c, g.loose(g.r.Range(1, 3)))
 			emit(c)
-		case i%10 < 8:
+		case k < 16:
 			textCase(g.text(g.r.Range(1, 3), false))
-		case i%10 == 8:
+		case k < 18:
 			if g.r.Chance(1, 4) {
 				yyCase(g.yyArith(3), true)
 			} else {
 				yyCase(g.yyCond(3), false)
 			}
-		default:
+		case k < 20:
 			emit(optCase(g, 0, feat{g.r.Chance(1, 8), g.r.Chance(1, 8)}))
+		case k == 20:
+			emit(planCase(g))
+		case k == 21:
+			emit(schemaCase(g))
+		case k == 22:
+			emit(rpcCase(g))
+		default:
+			emit(chunkCase(g))
 		}
 	}
 	gen.Emit(J{"done": true, "cases": id})
